@@ -79,7 +79,17 @@ __CPROVER_ensures(state->programData.len > 0 ==> (IS_HEADER_TYPE(state->programH
     && state->numberOfParameters >= 1))
 __CPROVER_ensures((IS_HEADER_TYPE(state->programHeader.type) && state->programData.len == 0) ==>
     (__CPROVER_pointer_in_range_dfcc(buffer, state->programData.ptr, buffer + RET)))
-/* C05/C13: text after the header that is not a well-formed data list followed by ; NL or the end
+/* C05/C13: the program data is the whole list (ALL_PROGRAM_DATA), absent (UNKNOWN, nothing but the terminator follows the
+ * white space after the header) or malformed (INVALID: the list ends with a separator; it is never delivered, see SCPI_Parse) */
+__CPROVER_ensures(state->programData.type == SCPI_TOKEN_ALL_PROGRAM_DATA || state->programData.type == SCPI_TOKEN_UNKNOWN || state->programData.type == SCPI_TOKEN_INVALID)
+__CPROVER_ensures(state->programData.type == SCPI_TOKEN_INVALID ==> (IS_HEADER_TYPE(state->programHeader.type) && state->programData.len == 0 && state->numberOfParameters < 0))
+__CPROVER_ensures(state->programData.type == SCPI_TOKEN_ALL_PROGRAM_DATA ==> state->programData.len > 0)
+#define UNIT_TAIL(st, r) ((long) (OFF(buffer) + (r)) - (long) (OFF((st)->programData.ptr) + (st)->programData.len))
+__CPROVER_ensures((IS_HEADER_TYPE(state->programHeader.type) && state->programData.type != SCPI_TOKEN_INVALID) ==>
+    (state->termination == SCPI_MESSAGE_TERMINATION_NONE ? UNIT_TAIL(state, RET) == 0
+     : state->termination == SCPI_MESSAGE_TERMINATION_SEMICOLON ? UNIT_TAIL(state, RET) == 1
+     : (UNIT_TAIL(state, RET) == 1 || (UNIT_TAIL(state, RET) == 2 && buffer[RET >= 2 ? RET - 2 : 0] == '\r'))))
+/* text after the header that is not a well-formed data list followed by ; NL or the end
  * invalidates the unit: a valid header is followed (after data) only by a terminator or the end */
 __CPROVER_ensures(IS_HEADER_TYPE(state->programHeader.type) ==> (state->termination != SCPI_MESSAGE_TERMINATION_NONE || RET == len))
 ;
